@@ -50,8 +50,13 @@ def apply_rewrites(text, rewrites, log, where):
     return text
 
 
-def apply_inserts(text, inserts, log, where):
+def apply_inserts(text, inserts, log, where, probe_labels=frozenset()):
     for ins in inserts:
+        if getattr(ins, "finding", None) and ("guard:" + ins.finding) in probe_labels:
+            # locate the anchor anyway (a lost anchor must be noticed), but insert nothing
+            if text.find(ins.anchor) < 0:
+                raise Undecided("%s: insert anchor %r not found" % (where, ins.anchor))
+            continue
         pos = -1
         start = 0
         for _ in range(ins.occ):
@@ -278,7 +283,7 @@ def gen_fn(fn, g, probe_labels, unit_name):
                     last = bpos
             pieces.append(b[last:])
             b = "".join(pieces)
-        b = apply_inserts(b, fn.inserts, g.rewrites, where)
+        b = apply_inserts(b, fn.inserts, g.rewrites, where, probe_labels)
         for l in b.split("\n"):
             m = re.match(r"/\*@@LOOP (\d+)@@\*/", l.strip())
             if m:
@@ -363,7 +368,7 @@ def gen_impl(im, g, probe_labels, unit_name):
                 out.append(("{ unimplemented!() }", None))
             else:
                 b = apply_rewrites(body, fn.rewrites + im.rewrites, g.rewrites, where + "::" + it.name)
-                b = apply_inserts(b, fn.inserts, g.rewrites, where + "::" + it.name)
+                b = apply_inserts(b, fn.inserts, g.rewrites, where + "::" + it.name, probe_labels)
                 out += [(l, {"kind": "body", "fnkey": fn.key}) for l in b.split("\n")]
             infos.append({"key": fn.key, "unit": unit_name, "file": im.file,
                           "lines": [sf.line_of(it.start), sf.line_of(it.end)],
